@@ -48,15 +48,22 @@ def _is_sym(x):
     return isinstance(x, (SInt, SBool, SReal, SFloat))
 
 
+class _Flags:
+    def __init__(self):
+        self.writeable = True
+
+
 class SArr:
     """array with concrete length along axis 0 and symbolic elements"""
     __array_priority__ = 1000
+    base = None
 
     def __init__(self, elems, dtype=float, item_shape=()):
         self.elems = list(elems)
         self.dtype = real_np.dtype(dtype)
         self.item_shape = tuple(item_shape)
         self.version = 0
+        self.flags = _Flags()
 
     # ------------------------------------------------------------ geometry
     @property
@@ -86,6 +93,19 @@ class SArr:
 
     def copy(self):
         return SArr(self.elems, self.dtype, self.item_shape)
+
+    def view(self, *a):
+        """alias: shares the element storage with ``self``"""
+        if a:
+            raise NotModelled("view with dtype")
+        v = SArr.__new__(SArr)
+        v.elems = self.elems
+        v.dtype = self.dtype
+        v.item_shape = self.item_shape
+        v.version = 0
+        v.flags = _Flags()
+        v.base = self
+        return v
 
     def astype(self, dtype, copy=True):
         return SArr(self.elems, dtype, self.item_shape)
@@ -165,6 +185,8 @@ class SArr:
         return SArr([self.elems[i] for i in sel], self.dtype, self.item_shape)
 
     def __setitem__(self, idx, val):
+        if not self.flags.writeable:
+            raise ValueError("assignment destination is read-only")
         kind, v = self._norm_index(idx)
         self.version += 1
         if kind == "int":
